@@ -314,6 +314,43 @@ func runC01(c *core.Ctx) {
 	if int(acc["torsion"]) != nTorsion {
 		c.Abort("reference rejects %d of its own torsion-shifted signatures", nTorsion-int(acc["torsion"]))
 	}
+	// every message length up to and beyond the usual stack-buffer sizes: honest signatures (made by crypto/ed25519) must
+	// verify, and must not verify for the message extended or shortened by one byte ("everything crypto/ed25519 accepts")
+	{
+		maxSweep := 4300
+		if th {
+			maxSweep = 8400
+		}
+		var lens []int
+		for l := 0; l <= maxSweep; l++ {
+			lens = append(lens, l)
+		}
+		for k := 13; k <= 17; k++ {
+			for _, d := range []int{-65, -64, -33, -32, -1, 0, 1, 31, 32, 33, 64} {
+				lens = append(lens, 1<<uint(k)+d)
+			}
+		}
+		std := stded.NewKeyFromSeed(bytes.Repeat([]byte{0xA1}, 32))
+		pub := []byte(std[32:])
+		core.Par(len(lens), func(i int) {
+			l := lens[i]
+			msg := make([]byte, l+1)
+			for k := range msg {
+				msg[k] = byte(k*59 + l)
+			}
+			sig := stded.Sign(std, msg[:l])
+			c.Eval(3)
+			if !ed25519.Verify(pub, msg[:l], sig) {
+				c.Violate("C01/length-sweep/rejects-valid", fmt.Sprintf("honest signature of a %d-byte message rejected (crypto/ed25519 accepts it)", l), l, "", nil)
+			}
+			if ed25519.Verify(pub, msg[:l+1], sig) && !ed.VerifyZIP215(pub, msg[:l+1], sig) {
+				c.Violate("C01/length-sweep/accepts-extended-message", fmt.Sprintf("signature of a %d-byte message accepted for the message plus one byte", l), l, "", nil)
+			}
+			if l > 0 && ed25519.Verify(pub, msg[:l-1], sig) && !ed.VerifyZIP215(pub, msg[:l-1], sig) {
+				c.Violate("C01/length-sweep/accepts-truncated-message", fmt.Sprintf("signature of a %d-byte message accepted for the message minus its last byte", l), l, "", nil)
+			}
+		})
+	}
 	c01Histories(c, hs[0].pub[:], hs[0].msg, hs[0].sig[:], small, off)
 	c.Sample(map[string]interface{}{"kind": "torsion", "pub": fmt.Sprintf("%x", triples[len(hs)].pub), "sig": fmt.Sprintf("%x", triples[len(hs)].sig)})
 	c.Sample(map[string]interface{}{"kind": "small-order", "A": fmt.Sprintf("%x", small[3]), "R": fmt.Sprintf("%x", small[9]), "S": 0})
